@@ -65,7 +65,11 @@ GROUPS = {
 }
 
 
-def build(ctx, group="hql", tier="quick", only=None):
+OWNER_MODE = {"hql": "hql", "mysql": "mysql", "oracle": "oracle", "redshift": "redshift", "snowflake": "snowflake", "mssql": "mssql",
+              "bigquery": "bigquery", "postgres": "postgres", "spark": "spark_sql", "db2": "ibm_db2"}
+
+
+def build(ctx, group="hql", tier="quick", only=None, final=None, final_modes=None):
     lm = ctx.lexer
     # multiple_options collects consecutive OPTIONS(...) clauses into one list (documented BigQuery behaviour)
     s = Spec(f"clauses-{group}", lm, accumulators={"expr", "defcolumn", "table_name", "multiple_options"})
@@ -147,7 +151,13 @@ def build(ctx, group="hql", tier="quick", only=None):
                 return {"options": Holds([roles.get("k"), roles.get("v")])}
             return inner_opt(roles, old)
         allk["clause:OPTIONS"] = options_kind
-    return s, DeltaOracle(s, allk, level, ignore_keys=base.ignore_by_lhs, normalize=normalize)
+    oracle = DeltaOracle(s, allk, level, ignore_keys=base.ignore_by_lhs, normalize=normalize)
+    if final:
+        from .final import FinalJudge
+        if final_modes is None and "modes" in final and tier != "thorough":
+            final_modes = ["sql", OWNER_MODE[group], "sqlite"]
+        oracle = FinalJudge(ctx, oracle, rules=final, modes=final_modes, label=s.name, max_shapes=60 if tier == "thorough" else 24)
+    return s, oracle
 
 
 def clause_expect(key):
